@@ -107,7 +107,7 @@ pub mod vx_ids {
 
     /// the sweep starts with an empty result and both cursors at the first entry
     pub proof fn lemma_minv_init<T: Merge>(a: Seq<Ent<T>>, b: Seq<Ent<T>>, r: Seq<Ent<T>>)
-        requires sorted(a), sorted(b), a.len() > 0, b.len() > 0, r.len() == 0,
+        requires sorted(a), sorted(b), nonempty(a), nonempty(b), a.len() > 0, b.len() > 0, r.len() == 0,
         ensures minv(a, b, r, a[0].0.start as int, b[0].0.start as int),
     {
         assert forall|c: int| !covers(r, c) by {
@@ -357,6 +357,10 @@ pub mod vx_ids {
             }
         @after 5 `push_coalesced(`
             proof {
+                assert(forall|c: int| #![trigger covers(result@, c)] covers(result@, c) ==> covers(r0, c) || inr(a_cur..a_end, c));
+                assert(forall|c: int| #![trigger covers(r0, c)] covers(r0, c) ==> covers(result@, c));
+                assert(forall|c: int| #![trigger inr(a_cur..a_end, c)] inr(a_cur..a_end, c) ==> covers(result@, c));
+                assert(forall|c: int| a_cur <= c < a_end ==> #[trigger] covers(result@, c));
                 lemma_adv_full(a@, ai as int, a_cur as int);
                 lemma_step(a@, b@, r0, result@, fa, fb, next_front(a@, ai as int), fb,
                     a_cur, a_end, a@[ai as int].1, true, false);
